@@ -23,10 +23,6 @@ func JSONExpressible(n *Node) (bool, string) {
 			return false, "map_key_not_a_json_string"
 		}
 		return JSONExpressible(n.Elem)
-	case KByteArr:
-		if n.Code != nil {
-			return false, "coded_byte_array_by_value"
-		}
 	case KPtr:
 		if n.Elem.Kind == KByteArr {
 			return true, "" // {type, key: hex} object, read back through the pointer
